@@ -90,6 +90,28 @@ pub fn measured_build<T>(f: impl FnOnce() -> T) -> (T, u64) {
     }
 }
 
+/// Wall-clock of one measured search, made robust against scheduling noise: `first_ns` is the
+/// time of the recorded run; only when it is above `100 ns * size + 10 ms` the search is
+/// repeated twice (recorder off) and the minimum is reported.
+pub fn robust_ns(first_ns: u64, size: usize, again: impl Fn()) -> u64 {
+    let suspicious = 100u64.saturating_mul(size as u64).saturating_add(10_000_000);
+    let mut best = first_ns;
+    if first_ns > suspicious {
+        for _ in 0..2 {
+            memchr::verif::reset();
+            memchr::verif::set_trace(false);
+            let t = std::time::Instant::now();
+            again();
+            best = best.min(t.elapsed().as_nanos() as u64);
+            if best <= suspicious {
+                break;
+            }
+        }
+        memchr::verif::reset();
+    }
+    best
+}
+
 /// Work limit for one substring-search op: 10x above the largest cost observed on the unchanged tree (the proved
 /// constants are larger: they are upper bounds, this is a test threshold), far below quadratic work
 /// on the adversarial families.
